@@ -20,14 +20,20 @@ def run_cli(binp, args, timeout=120):
 
 
 def qdrv_check(paths, d):
-    lst = os.path.join(d, 'l.txt')
-    open(lst, 'w').write('\n'.join(paths) + '\n')
-    rc, out = qv.sh('ulimit -s unlimited; exec %s check %s' % (os.path.join(qv.VERIF, 'driver', 'qdrv'), lst), timeout=1200)
-    res = {}
-    for ln in out.split('\n'):
-        if ln.strip():
-            res[ln.split()[0]] = dict(x.split('=', 1) for x in ln.split()[1:] if '=' in x)
-    return res
+    """extracted specification checker, 16 processes; images whose refcount blocks have more than 2^18 entries are
+    not judged (the extracted code walks every entry of every block: minutes per image)"""
+    import struct
+    small = []
+    for p in paths:
+        try:
+            hdr = open(p, 'rb').read(104)
+            cb = struct.unpack('>I', hdr[20:24])[0]
+            ro = struct.unpack('>I', hdr[96:100])[0] if struct.unpack('>I', hdr[4:8])[0] >= 3 else 4
+            if ((1 << cb) * 8 >> ro) <= (1 << 18):
+                small.append(p)
+        except Exception:
+            small.append(p)
+    return qv.qdrv_check(small, d)
 
 
 def run(tier, seed, replay):
@@ -111,6 +117,9 @@ def run(tier, seed, replay):
         paths.append(p)
     ver = qdrv_check(paths, d)
     for p in paths:
+        if p not in ver:
+            stats['format_not_judged_large_refblock'] += 1
+            continue
         v = ver.get(p, {})
         if v.get('valid') != '1':
             finds.append(('format-valid', os.path.basename(p), 'formatted image %s is not valid under the specification checker: %s' % (os.path.basename(p), {k: v.get(k) for k in ('supported', 'valid', 'tables', 'leaked', 'under', 'over', 'error')})))
